@@ -102,6 +102,17 @@ def run(replay=None):
             else:
                 toks[i] = rnd.choice(ALPHABET)
         add('P1', P1, entry, ' '.join(toks))
+    # (b') annotation blocks: every sequence of up to 3 annotation keys (with repeats and an unknown key) before a property
+    import itertools as _it
+    keys = {'id': '# id: p1', 'title': '# title: "t"', 'description': '# description: "d"', 'unknown': '# foo: "x"',
+            'id2': '# id: p2', 'title2': '# title: "other"'}
+    for n in (1, 2, 3):
+        for combo in _it.product(sorted(keys), repeat=n):
+            if n == 3 and rnd.random() > (1.0 if thorough else 0.5):
+                continue
+            text = ' '.join(keys[k] for k in combo) + ' globally: no a'
+            add('P1', P1, 'property', text)
+            add('P1', P1, 'specification', text + '\n' + keys['title'] + ' globally: some b')
     # (c) raw unicode / structured noise (the spec only classifies the outcomes)
     chars = ['a', '1', ' ', '{', '}', '(', ')', '"', '\\', '@', '#', '\n', '\t', 'é', '中', '\U0001f600', '\x00', '.', ':',
              '[', ']', '!', '=', '-', '/', '~', '$', '%', "'", '​', 'E', 'e', '+']
